@@ -72,6 +72,9 @@ type childOut struct {
 }
 
 type child struct {
+	list      []methodInfo
+	reached   map[string]bool // transport/namespace reached by some call
+	skipping  bool
 	flush     func()
 	lastFlush time.Time
 	t     *testing.T
@@ -227,12 +230,23 @@ func (c *child) witnesses() []witness {
 	}
 }
 
-func (c *child) runWitnesses() {
-	for _, tr := range c.order() {
+func (c *child) runWitnesses(group []string) {
+	for _, tr := range group {
 		expect := c.conf.Env.Expect[tr]
 		for _, w := range c.witnesses() {
 			mi := methodInfo{Full: w.method, Namespace: strings.SplitN(w.method, "_", 2)[0]}
 			res := c.call(tr, mi, w.args, false)
+			// an opted-in signing method that did not answer in time (loaded machine) says
+			// nothing about the opt-in: ask again; without an answer there is no verdict
+			for try := 0; expect == must && w.doc && res.moved == 0 && (res.class == "timeout" || res.class == "io") && try < 3; try++ {
+				time.Sleep(500 * time.Millisecond)
+				res = c.call(tr, mi, w.args, false)
+			}
+			if expect == must && w.doc && res.moved == 0 && (res.class == "timeout" || res.class == "io") {
+				c.out.HarnessError = "positive control " + w.method + " over " + tr + " got no answer: " + res.errMsg
+				c.t.Errorf("%s", c.out.HarnessError)
+				return
+			}
 			cs := c.mkCase(tr, mi, w.args, false, res, "")
 			c.record(tr, mi, cs, res, []string{"witness", "names:keystore-account"}, true)
 			switch {
@@ -273,9 +287,10 @@ func (c *child) violation(cs callCase) {
 	c.t.Errorf("VIOLATION env=%s: %s\n  call: %s %s -> %s", c.conf.Env.Name, cs.What, cs.Method, string(cs.Params), cs.Result)
 }
 
-// order: locked-down transports first, so that nothing an opted-in endpoint might
-// do after its call returns can be attributed to a locked-down one.
-func (c *child) order() []string {
+// groups: locked-down transports first, opted-in (or undetermined) ones after, and the
+// second group is not touched before the first is finished: nothing an opted-in endpoint
+// does, not even a call that answers late, can fall into a locked-down call's window.
+func (c *child) groups() [][]string {
 	var a, b []string
 	for _, tr := range transports {
 		if c.conf.Env.Expect[tr] == mustNot {
@@ -284,12 +299,22 @@ func (c *child) order() []string {
 			b = append(b, tr)
 		}
 	}
-	return append(a, b...)
+	var g [][]string
+	if len(a) > 0 {
+		g = append(g, a)
+	}
+	if len(b) > 0 {
+		g = append(g, b)
+	}
+	return g
 }
 
 // record accounts one executed call in the evidence.
 func (c *child) record(tr string, mi methodInfo, cs callCase, res callResult, lbls []string, namesAcct bool) {
 	reached := res.class == "ok" || res.class == "error" || res.class == "timeout"
+	if c.reached != nil && (reached || res.class == "invalid-params") {
+		c.reached[tr+"/"+mi.Namespace] = true
+	}
 	nt := namesAcct && reached
 	if nt {
 		c.out.NTHashes = append(c.out.NTHashes, hash64(c.conf.Env.Name+"|"+tr+"|"+cs.Method+"|"+string(cs.Params)))
@@ -325,10 +350,20 @@ func (c *child) record(tr string, mi methodInfo, cs callCase, res callResult, lb
 
 // ---------- the generated sweep ----------
 
-func (c *child) sweep() {
+func (c *child) prepare() bool {
 	list, info := universe(c.fx)
+	c.list = list
+	c.reached = map[string]bool{}
 	c.out.Universe = info
 	c.out.Methods = len(list)
+	// nothing may be hidden from a network endpoint by the module whitelist
+	for _, tr := range transports[1:] {
+		if strings.Join(c.fx.modules[tr], ",") != strings.Join(c.fx.modules["inproc"], ",") {
+			c.out.HarnessError = fmt.Sprintf("%s serves modules %v, in-proc serves %v", tr, c.fx.modules[tr], c.fx.modules["inproc"])
+			c.t.Errorf("%s", c.out.HarnessError)
+			return false
+		}
+	}
 	modNS := map[string]bool{}
 	for _, tr := range transports {
 		for _, ns := range c.fx.modules[tr] {
@@ -344,7 +379,7 @@ func (c *child) sweep() {
 		if !have[ns] {
 			c.out.HarnessError = "namespace " + ns + " is served (rpc_modules) but no method of it is in the universe"
 			c.t.Errorf("%s", c.out.HarnessError)
-			return
+			return false
 		}
 	}
 	var untyped []string
@@ -354,14 +389,18 @@ func (c *child) sweep() {
 		}
 	}
 	info["untyped"] = strings.Join(untyped, ",")
+	c.skipping = c.conf.ResumeMethod != ""
+	return true
+}
 
-	skipping := c.conf.ResumeMethod != ""
-	for _, tr := range c.order() {
+func (c *child) sweep(group []string) {
+	list := c.list
+	for _, tr := range group {
 		expect := c.conf.Env.Expect[tr]
 		for _, mi := range list {
-			if skipping {
+			if c.skipping {
 				if tr == c.conf.ResumeTransport && mi.Full == c.conf.ResumeMethod {
-					skipping = false
+					c.skipping = false
 				}
 				continue
 			}
@@ -394,6 +433,21 @@ func (c *child) sweep() {
 		}
 	}
 	os.Remove(c.conf.Progress)
+}
+
+func (c *child) finish() {
+	// every namespace an endpoint reports was reached over that endpoint
+	if c.conf.Only == "" && c.conf.ResumeMethod == "" {
+		for _, tr := range transports {
+			for _, ns := range c.fx.modules[tr] {
+				if !c.reached[tr+"/"+ns] {
+					c.out.HarnessError = "no call reached a method of namespace " + ns + " over " + tr
+					c.t.Errorf("%s", c.out.HarnessError)
+					return
+				}
+			}
+		}
+	}
 	// nothing may sign after the fact either
 	last := keystore.VerifSignCount()
 	time.Sleep(300 * time.Millisecond)
@@ -524,16 +578,41 @@ func TestChild(t *testing.T) {
 	case "replay":
 		c.replay()
 	default:
-		if conf.ResumeMethod == "" {
-			c.runWitnesses()
-			c.flush()
-		}
-		if len(out.Violations) > 0 {
-			// the deterministic witnesses already failed: report at once
-			fmt.Println("witness calls violated the property; generated sweep skipped")
+		if !c.prepare() {
 			break
 		}
-		c.sweep()
+		resumeInGroup := func(g []string) bool {
+			for _, tr := range g {
+				if tr == conf.ResumeTransport {
+					return true
+				}
+			}
+			return false
+		}
+		for _, g := range c.groups() {
+			if c.skipping && !resumeInGroup(g) {
+				continue // this group was finished by the child that died
+			}
+			if !c.skipping {
+				c.runWitnesses(g)
+				c.flush()
+				if len(out.Violations) > 0 {
+					// the deterministic witnesses already failed: report at once
+					fmt.Println("witness calls violated the property; generated sweep skipped")
+					break
+				}
+				if out.HarnessError != "" {
+					break
+				}
+			}
+			c.sweep(g)
+			if len(out.Violations) > 0 {
+				break
+			}
+		}
+		if len(out.Violations) == 0 && out.HarnessError == "" {
+			c.finish()
+		}
 	}
 	if out.HarnessError == "" {
 		out.Completed = true
